@@ -302,11 +302,30 @@ def run(ck, ctx):
                         nd = narrow_dtype(n.args[1])
                         if nd:
                             hits.append((n, f"astype({nd})"))
+                # operations that mean something else on integers (reciprocal, floor division), applied to a value
+                # that still has the element type the caller passed: a whole-number pressure or altitude written
+                # without a decimal point is the same point of the domain
+                for n in value_cone(r.value):
+                    arg = None
+                    if is_ext_call(n, "numpy.reciprocal") and len(n.args) >= 2:
+                        arg, what_ = n.args[1], "np.reciprocal (0 for every integer above 1)"
+                    elif is_ext_call(n, "numpy.floor_divide") and len(n.args) >= 3:
+                        arg, what_ = n.args[1], "np.floor_divide"
+                    elif n.op == "BinOp" and n.attr == "FloorDiv":
+                        arg, what_ = n.args[0], "//"
+                    if arg is not None and _input_typed(arg, x, {t.id for t in tables.values()}):
+                        ck.ob("R19.5", f"{tag}: no integer-only arithmetic on a value that has the element type of the "
+                              f"argument [{what_} at {n.where()}]", False, n, fname,
+                              "an integer-typed argument (101325, an int array, a list of ints) is the same pressure / "
+                              "altitude as its float spelling; true division treats both alike, this operation does not",
+                              construct=f"{fname}: {what_.split(' ')[0]} of an argument-typed value")
+                        hits.append((n, what_))
                 for n, what in hits[:3]:
-                    ck.ob("R19.5", f"{tag}: no value on the way to the result is narrowed [{what} at {n.where()}]", False,
-                          n, fname, "a result rounded to less than double precision cannot invert to 1e-6 km / 1e-6 "
-                          "relative (float32 resolves 6e-8 relative: 6e-6 km at 100 km)",
-                          construct=f"{fname}: result narrowed by {what}")
+                    if not what.startswith(("np.reciprocal", "np.floor_divide", "//")):
+                        ck.ob("R19.5", f"{tag}: no value on the way to the result is narrowed [{what} at {n.where()}]",
+                              False, n, fname, "a result rounded to less than double precision cannot invert to 1e-6 "
+                              "km / 1e-6 relative (float32 resolves 6e-8 relative: 6e-6 km at 100 km)",
+                              construct=f"{fname}: result narrowed by {what}")
                 ck.ob("R19.5", f"{tag}: the result is computed and returned in the working precision of its input "
                       "(no narrowing cast or rounding on the value path)", not hits, r.value, fname,
                       f"{len(hits)} narrowing operation(s)")
@@ -489,6 +508,51 @@ def _first_difference(g, a, b, depth=0):
             if d:
                 return d
     return f"{g.show(a, 2)} [{a.where()}]  vs  {g.show(b, 2)} [{b.where()}]"
+
+
+def _input_typed(n, x, table_ids, depth=0):
+    """may n have the element type of the argument x (integer if the caller passed integers)?  True for the argument,
+    selections / copies / asarray of it without a dtype, and sums / products / differences of such values with integer
+    constants; False as soon as a float enters: a float constant or table, a true division, a transcendental
+    function, an explicit float dtype"""
+    if depth > 24:
+        return False
+    if n is x:
+        return True
+    if n.op == "Input":
+        return False
+    if n.op == "Const":
+        return isinstance(n.attr, int) and not isinstance(n.attr, bool)
+    if n.op in ("Subscript",):
+        return n.args[0].id not in table_ids and _input_typed(n.args[0], x, table_ids, depth + 1)
+    if n.op == "Scatter":
+        return _input_typed(n.args[0], x, table_ids, depth + 1) and \
+            (n.args[2].op != "Const" or isinstance(n.args[2].attr, int)) and \
+            (n.args[2].op == "Const" or _input_typed(n.args[2], x, table_ids, depth + 1))
+    if n.op == "Phi":
+        return any(_input_typed(a, x, table_ids, depth + 1) for a in n.args[1:])
+    if n.op == "BinOp":
+        if n.attr in ("Div",):
+            return False
+        if n.attr in ("Add", "Sub", "Mult", "Mod", "FloorDiv", "Pow"):
+            return all(_input_typed(a, x, table_ids, depth + 1) for a in n.args)
+        return False
+    if n.op == "UnaryOp":
+        return _input_typed(n.args[0], x, table_ids, depth + 1)
+    if n.op == "MCall" and n.attr[0] in ("copy", "ravel", "flatten", "reshape", "squeeze", "view") and n.args:
+        return _input_typed(n.args[0], x, table_ids, depth + 1)
+    if n.op == "Call" and n.args and n.args[0].op == "Ext":
+        q = n.args[0].attr
+        pos, kws = call_args(n)
+        if q in ("numpy.asarray", "numpy.array", "numpy.atleast_1d", "numpy.ascontiguousarray", "numpy.copy",
+                 "numpy.ravel", "numpy.squeeze", "numpy.abs", "numpy.absolute", "numpy.negative", "numpy.maximum",
+                 "numpy.minimum", "numpy.clip", "numpy.empty_like", "numpy.zeros_like", "numpy.ones_like",
+                 "numpy.full_like") and pos:
+            if "dtype" in kws or (q in ("numpy.asarray", "numpy.array") and len(pos) > 1):
+                return False
+            return _input_typed(pos[0], x, table_ids, depth + 1)
+        return False
+    return False
 
 
 def _ungathered(ix):
